@@ -442,7 +442,7 @@ def case_strategy():
 
 
 def shards(tier, seed):
-    n, per = (16, 30) if tier == "quick" else (64, 150)
+    n, per = (16, 30) if tier == "quick" else (64, 80)
     return [{"n": per, "seed": seed * 1000 + i} for i in range(n)]
 
 
